@@ -16,6 +16,13 @@
      LPeerMsg       endPoint.process: msg.Read returned a complete message                  endpoint.go:360-361
      LReadFail      endPoint.process: msg.Read returned an error (EOF, mid-frame, garbage)  endpoint.go:362
      LDispatch      endPoint.dispatch (whole body under handlersMutex)                      endpoint.go:313-352
+                    including the Error message ("consumer blocked") it writes itself, through
+                    e.Send, for a message of type Call that found the queue of its handler full:
+                    the result of that Send is discarded and Send does nothing but the Write, so
+                    the label is the same whether that Write succeeds or fails — it is enabled
+                    after LConnDie as before it, and a loss that shows up first in that Write is
+                    LPeerMsg m; LConnDie; LDispatch; LReadFail.  (A Call is [TOther] for the
+                    filters of a client: Subscribe's filter matches whatever the type.)
      LProcClose1/2  endPoint.closeWith(err) from process: stream.Close ; lock, go closeWith endpoint.go:232-246
      LUserClose1/2  endPoint.Close() = closeWith(nil) from a user goroutine                 endpoint.go:249
      LCloserStep    one `go handler.closeWith(err)`: closer(err) ; close(consumer)          endpoint.go:91-96
@@ -126,7 +133,8 @@ Definition set_panicked (s : state) (v : bool) : state :=
 
 (* ---------- endpoint operations ---------- *)
 
-(* MakeHandler: first free slot, else append; returns the slot *)
+(* MakeHandler: first free slot, else append; returns the slot.  The table has no bound: the
+   handler is registered whatever the number of live handlers ([alloc_slot], C11_always_registered) *)
 Fixpoint alloc (tb : list (option owner)) (o : owner) : list (option owner) * nat :=
   match tb with
   | [] => ([Some o], 0)
